@@ -4,6 +4,7 @@ import OSProofs.Props.C01d
 import OSProofs.Props.C01e
 import OSProofs.CodeShaped
 import OSProofs.Ladder
+import OSProofs.GenTie
 #print axioms OS.C01_PL
 #print axioms OS.C01_BTF
 #print axioms OS.C01_BTP
@@ -47,3 +48,12 @@ import OSProofs.Ladder
 #print axioms OS.C01_code_vs_exact_TMF
 #print axioms OS.C01_code_vs_exact_TMP
 #print axioms OS.C01_leafGap_code_exact
+#print axioms OS.Gen.gamma_PL_eq
+#print axioms OS.Gen.gamma_BTF_eq
+#print axioms OS.Gen.gamma_BTP_eq
+#print axioms OS.Gen.gamma_TMF_eq
+#print axioms OS.Gen.gamma_TMP_eq
+#print axioms OS.Gen.v_eq
+#print axioms OS.Gen.w_eq
+#print axioms OS.Gen.vt_eq
+#print axioms OS.Gen.wt_eq
